@@ -419,20 +419,24 @@ def py_obs(v):
 
 
 def canon_items(impl_items, model_items):
-    """Parse the implementation's Set-Cookie lines; raw (appended) lines stay text.  Returns the
-    implementation's list in the model's item vocabulary."""
+    """Parse the implementation's Set-Cookie lines into the model's item vocabulary.  The jar
+    cookies are emitted last: the final k Set-Cookie lines (k = number of jar cookies the model
+    holds) are parsed as cookies, earlier ones are raw (appended) lines and stay text."""
+    k = sum(1 for i in model_items if i[0] == 'cookie')
+    sc = [idx for idx, it in enumerate(impl_items) if it[0] == 'set-cookie-line']
+    jar = set(sc[len(sc) - k:]) if k else set()
+    mcookies = [i for i in model_items if i[0] == 'cookie']
     out = []
-    n_plain_model = sum(1 for i in model_items if i[0] == 'plain')
+    j = 0
     for idx, it in enumerate(impl_items):
         if it[0] == 'plain':
             out.append(it)
-            continue
-        # position decides: the model says whether this slot is a raw line or a jar cookie
-        mi = model_items[idx] if idx < len(model_items) else None
-        if mi is not None and mi[0] == 'cookie':
+        elif idx in jar:
             name, coded, m = parse_cookie_line(it[2])
-            e = mi[3]['expires']
-            if isinstance(e, tuple) and m['expires'] is not None and past_date(m['expires']):
+            mi = mcookies[j] if j < len(mcookies) else None
+            j += 1
+            if mi is not None and isinstance(mi[3]['expires'], tuple) and m['expires'] is not None \
+                    and past_date(m['expires']):
                 m['expires'] = ('delta', -1)
             out.append(('cookie', it[1], name, m))
         else:
@@ -512,16 +516,8 @@ def judge_histories(ctx, model, hists, results, specs, tag=''):
                                        'history': hist_json(sd, asgi, ops), 'op_index': i, 'impl': repr(a),
                                        'spec': sv}, key='ci-map' + tag)
                         continue
-            if not same:
-                ctx.count('disagree')
-                detail = {'what': 'operation %d (%s) observed differently on falcon.%sResponse and the model'
-                                  % (i, kind, 'asgi.' if asgi else ''),
-                          'history': hist_json(sd, asgi, ops), 'op_index': i, 'impl': repr(a), 'model': repr(b)}
-                disagreements.append((kind, detail))
-                break
-            # ---- oracles on the implementation's observation
-            if kind in ('emit_w', 'emit_a') and a[0] == 'items':
-                hdr = [x for x in impl[:i] if x[0] == 'headers']
+            # ---- oracles on the implementation's observation (also when it differs from the model)
+            if kind in ('emit_w', 'emit_a') and a[0] == 'items' and b[0] == 'items':
                 expected = [[x[1], x[2]] for x in a[1] if x[0] == 'plain' and x[1].lower() != 'set-cookie']
                 # what the map must hold = resp.headers read just before (trailing) if any
                 if i == len(ops) - 1 and impl[i - 1][0] == 'headers':
@@ -533,6 +529,13 @@ def judge_histories(ctx, model, hists, results, specs, tag=''):
                 witems = [[0, x[1], x[2]] if x[0] == 'plain' else [1, x[1], x[2], wire_morsel(x[3])] for x in a[1]]
                 oracle_cases.append([6, expected, n_lines, witems])
                 oracle_meta.append(('emit', hi, i))
+            if not same:
+                ctx.count('disagree')
+                detail = {'what': 'operation %d (%s) observed differently on falcon.%sResponse and the model'
+                                  % (i, kind, 'asgi.' if asgi else ''),
+                          'history': hist_json(sd, asgi, ops), 'op_index': i, 'impl': repr(a), 'model': repr(b)}
+                disagreements.append((kind, detail))
+                break
         ctx.note_case(('hist' + tag, hi, ctx.seed), nontrivial)
     return oracle_cases, oracle_meta
 
@@ -975,6 +978,20 @@ def replay(ctx, obj, quiet=False):
         if not ok:
             ctx.violation(kind, {'wire': obj['wire'], 'secure_default': sd, 'asgi': asgi, 'line': lines[0],
                                  'observed': repr(m), 'shape': obj.get('shape')}, key='replay-' + kind + str(obj.get('shape')))
+        return
+    if kind == 'cookie-echo-differs':
+        from falcon import testing
+        resp = falcon.Response()
+        resp.set_cookie(obj['name'], obj['value'])
+        line = [v for n_, v in resp._wsgi_headers() if n_ == 'set-cookie'][0]
+        name, coded, m = parse_cookie_line(line)
+        hdr = '%s=%s' % (name, coded)
+        req = (testing.create_asgi_req if obj.get('asgi') else testing.create_req)(headers={'Cookie': hdr})
+        got = (req.cookies.get(name), req.get_cookie_values(name))
+        ctx.sample({'replayed': obj.get('_file', kind), 'cookie_header': hdr, 'read_back': repr(got)})
+        if got != (obj['value'], [obj['value']]):
+            ctx.violation(kind, {'name': name, 'value': obj['value'], 'cookie_header': hdr, 'asgi': obj.get('asgi'),
+                                 'read_back': repr(got)}, key='replay-echo')
         return
     if kind == 'content-disposition-not-decodable':
         resp = falcon.Response()
